@@ -40,6 +40,11 @@ class Facts:
         self.by_key = {}
         import inline as _inl
         raws = {b["path"]: b for b in self.raw["bodies"]}
+        import desugar as _ds
+        _ds.desugar(raws)
+        if not os.environ.get("SODG_NO_CLOSINL"):
+            import closinl as _ci
+            _ci.desugar_closures(raws)
         self.recursive = _inl.recursive_set(raws)
         cache = {}
         called = set()
@@ -49,7 +54,14 @@ class Facts:
                     called.add(cp)
         self.helper_paths = set()
         for p, b in raws.items():
-            body = Body(self, _inl.inline_body(raws, p, self.recursive, cache) if not os.environ.get("SODG_NO_INLINE") else b)
+            rb = _inl.inline_body(raws, p, self.recursive, cache) if not os.environ.get("SODG_NO_INLINE") else b
+            if not os.environ.get("SODG_NO_THREAD"):
+                import thread as _th
+                try:
+                    _th.thread_switches(rb)
+                except Exception:
+                    pass
+            body = Body(self, rb)
             self.bodies[body.path] = body
             if _inl.inlinable(b) and p not in self.recursive and p in called and not os.environ.get("SODG_NO_INLINE"):
                 self.helper_paths.add(p)
@@ -476,6 +488,10 @@ class Body:
                 if e["owner"] == "{closure}" and strip_load(base) == ("param", 1):
                     base = ("upvar", int(e["name"]))
                     through_ref = False
+                elif e["owner"] == "{closure}" and strip_load(base)[0] == "closure" and int(e["name"]) < len(strip_load(base)[2]):
+                    # a closure body spliced into its creator (closinl): the captured variable is the aggregate's operand
+                    base = strip_load(base)[2][int(e["name"])]
+                    through_ref = False
                 else:
                     base = mk_field(base, e["owner"] + "::" + e["name"], as_loc=not read)
             elif k == "downcast":
@@ -685,6 +701,33 @@ class Body:
                 return False
         return True
 
+    def origins(self, local, site, depth=0, seen=None):
+        """where the value a local holds at `site` was produced, looking through plain copies/moves between locals:
+        list of (def_site, kind) with kind "agg" (an aggregate statement), "call" (a call result), "other", "entry" """
+        out = []
+        seen = set() if seen is None else seen
+        for d in self.reaching_defs(local, site) or [("entry",)]:
+            if d == ("entry",):
+                out.append((None, "entry"))
+                continue
+            d = tuple(d)
+            if (local, d) in seen:
+                continue
+            seen.add((local, d))
+            bb, idx = d
+            blk = self.blocks[bb]
+            if idx >= len(blk["stmts"]):
+                out.append((d, "call"))
+                continue
+            rv = blk["stmts"][idx]["rv"]
+            if rv["k"] == "aggregate":
+                out.append((d, "agg"))
+            elif rv["k"] == "use" and rv["op"].get("k") in ("copy", "move") and not rv["op"]["place"]["proj"] and depth < 12:
+                out += self.origins(rv["op"]["place"]["local"], d, depth + 1, seen)
+            else:
+                out.append((d, "other"))
+        return out
+
     def call_edge_facts(self, bb, phase1=None):
         """facts that hold after a call returns: for `iter.find(pred)` the predicate holds of the item found (a statement
         about that item, vacuous when nothing is found)"""
@@ -840,6 +883,60 @@ class Body:
 
     def facts_at(self, site):
         return self.facts_in().get(site[0], frozenset())
+
+    def presence_assertions(self):
+        """facts `discr(x) ∈ {Some}` / `{Ok}` contributed by a switch whose other outcomes never reach a normal return
+        (`.unwrap()` spelled as a match/map: `let Some(v) = m.get(k) else { panic!() }`, `m.get_mut(k).map(f).unwrap()`):
+        they assert a precondition, they do not select between two behaviours"""
+        if getattr(self, "_passert", None) is None:
+            can = set()
+            for b in self.reachable:
+                if self.blocks[b]["term"]["k"] == "return":
+                    can.add(b)
+            # an edge N -> J is doomed when N leaves a None/Err in a local that J immediately unwraps
+            doomed = set()
+            for n in self.reachable:
+                if len(self.succ[n]) != 1:
+                    continue
+                j = self.succ[n][0][0]
+                tj = self.blocks[j]["term"]
+                if tj["k"] != "call" or tj["callee"].get("name") not in ("unwrap", "expect") or not tj["args"]:
+                    continue
+                op = tj["args"][0]
+                if op.get("k") not in ("copy", "move") or op["place"]["proj"]:
+                    continue
+                dl = op["place"]["local"]
+                if any(st.get("k") == "assign" and st["lhs"]["local"] == dl for st in self.blocks[j]["stmts"]):
+                    continue
+                last = None
+                for st in self.blocks[n]["stmts"]:
+                    if st.get("k") == "assign" and st["lhs"]["local"] == dl and not st["lhs"]["proj"]:
+                        last = st
+                if last is not None and last["rv"]["k"] == "aggregate" and last["rv"].get("variant") in ("None", "Err"):
+                    doomed.add((n, j))
+            changed = True
+            while changed:
+                changed = False
+                for b in self.reachable:
+                    if b not in can and any(s in can and (b, s) not in doomed for s, _ in self.succ[b]):
+                        can.add(b)
+                        changed = True
+            out = set()
+            for b in self.reachable:
+                t = self.blocks[b]["term"]
+                if t["k"] != "switch":
+                    continue
+                live = [(s, l) for s, l in self.succ[b] if s in can]
+                if len(live) == 1 and len(self.succ[b]) > 1:
+                    try:
+                        fs = self.edge_facts(b, live[0][1], self.facts_in())
+                    except RecursionError:
+                        fs = frozenset()
+                    for f in fs:
+                        if f[0] == "in" and f[2] in (frozenset(["Some"]), frozenset(["Ok"])) and strip_load(f[1])[0] == "discr":
+                            out.add(f)
+            self._passert = out
+        return self._passert
 
     # ------------------------------------------------------ events
     def sites(self):
@@ -1033,6 +1130,15 @@ def canon_call(body, c, args, site):
             return ("optmap", unload(subst(ts[1], {("param", 2): item})), ("find", a0, cl, site[0]))
     if decl.startswith("std::option::Option::<T>::") and name == "unwrap_or" and len(args) == 2:
         return ("phi", (payload(a0), deref_addr(body, args[1])))
+    if decl.startswith("std::option::Option::<T>::") and name == "map_or" and len(args) == 3:
+        # opt.map_or(default, f): f(payload) if Some, default otherwise
+        res = closure_result(body, deref_addr(body, args[2]), payload(strip_load(a0)))
+        if res is not None:
+            return ("phi", (deref_addr(body, args[1]), res))
+    if decl.startswith("std::option::Option::<T>::") and name == "unwrap_or_else" and len(args) == 2:
+        res = closure_result0(body, deref_addr(body, args[1]))
+        if res is not None:
+            return ("phi", (payload(a0), res))
     if decl.startswith("std::option::Option::<") and name in ("copied", "cloned") and len(args) == 1:
         return a0    # Option<&T> -> Option<T>: the same option as far as provenance goes (references are transparent)
     if (decl.startswith("std::option::Option::<T>::") or decl.startswith("std::result::Result::<T, E>::")) and \
@@ -1093,6 +1199,25 @@ def closure_result(body, cl, arg):
     except RecursionError:
         return None
     mapping = {("param", 2): arg}
+    for ui, uop in enumerate(cl[2]):
+        mapping[("upvar", ui)] = body.expr_local(uop[1], uop[2]) if uop[0] == "addr" else uop
+    return resimplify(unload(subst(e, mapping)))
+
+
+def closure_result0(body, cl):
+    """value a parameterless closure returns (captures taken from the enclosing body); None if not computable"""
+    cl = strip_load(cl)
+    if cl[0] != "closure":
+        return None
+    cb = body.facts.bodies.get(cl[1])
+    if cb is None or cb.arg_count != 1 or len(cb.returns) != 1:
+        return None
+    r = cb.returns[0]
+    try:
+        e = cb.expr_local(0, (r, cb.term_idx(r)))
+    except RecursionError:
+        return None
+    mapping = {}
     for ui, uop in enumerate(cl[2]):
         mapping[("upvar", ui)] = body.expr_local(uop[1], uop[2]) if uop[0] == "addr" else uop
     return resimplify(unload(subst(e, mapping)))
